@@ -328,6 +328,12 @@ C('cdf_confidence', 'alpha', lambda g: ((g.normal(size=20), 0.1), {}))
 C('cdf_getter', 'array', lambda g: ((g.normal(size=15),), {}),
     runner=lambda t, a, k: (lambda f: [f(0.1), f(np.array([-1., 0., 1.]))])(
         t.cdf_getter(*a, **k)))
+# the getter itself is the result (arrays captured in its closure count)
+C('cdf_getter', 'function-sorted-array', lambda g: ((np.sort(g.normal(
+    size=12)),), {}))
+C('cdf_getter', 'function-sorted-ties', lambda g: ((np.sort(np.round(g.normal(
+    size=12), 0)),), {}))
+C('cdf_getter', 'function-unsorted', lambda g: ((g.normal(size=12),), {}))
 C('cdf_getter', 'list', lambda g: ((g.normal(size=9).tolist(),), {}),
     runner=lambda t, a, k: (lambda f: f(0.))(t.cdf_getter(*a, **k)))
 
@@ -518,6 +524,15 @@ def _als_swap(g):
 
 
 C('als', 'adaptive-swap', _als_swap, heavy=True)
+def _als_mode1(g):
+    # a mode of size 1 (all samples share its index) and no regularisation
+    n = [3, 1, 4]
+    I = covering_idx(g, n, 20)
+    return (I, g.normal(size=len(I)), tt(g, n, 2)), dict(nswp=2, lamb=None)
+
+
+C('als', 'mode1-unregularised', _als_mode1, heavy=True)
+C('als', 'unregularised', lambda g: _als(g, lamb=None), heavy=True)
 C('als', 'skip-cores', lambda g: (lambda a, k: ((a[0][a[0][:, 1] != 2],
     a[1][a[0][:, 1] != 2], a[2]), dict(k, allow_skip_cores=True)))(*_als(g)),
     heavy=True)
